@@ -212,6 +212,10 @@ func Run(t *testing.T, c Case) *Result {
 		res.Skip = true
 		return res
 	}
+	if full := dagen.RefFull(b, dagen.Canonical(c.Sel.Node())); full.Err == dagen.ErrTooLarge {
+		res.Skip = true // outside the generated domain: exponentially many paths (see dagen.ErrTooLarge)
+		return res
+	}
 	idx := map[graphsync.RequestID]int{}
 	for i := range c.Reqs {
 		idx[ReqID(i)] = i
